@@ -13,7 +13,7 @@ RACE = True
 JOBS = 8
 BATCH_TIMEOUT = 400
 RULE = ("scenario = one forward.New proxy (StateListener around it, real net/http server, transport with ResponseHeaderTimeout) and a scripted raw "
-        "loopback backend; ops: a backend response (status, header set, body size 0..1MiB (thorough 8MiB), Content-Length / chunked / close-delimited framing, "
+        "loopback backend; ops: a backend response (also 2-6 concurrent ones) (status, header set, body size 0..1MiB (thorough 8MiB), Content-Length / chunked / close-delimited framing, "
         "write-size and flush pattern), a failure mode (refused, RST or FIN before the head, garbage, header timeout, client cancellation), an abort "
         "after the head, or a StateListener around a returning / panicking handler; non-trivial = at least one failure or abort op and one response "
         "with a body >= 4096 bytes or chunked framing")
@@ -119,6 +119,14 @@ def gen_resp(rng, tier):
     return " ".join(toks)
 
 
+def gen_presp(rng):
+    k = rng.randint(2, 6)
+    n = rng.choice([1000, 40000, 100000, 200000, 300000])
+    seed = rng.randint(0, 200)
+    digs = [digest(seed + i, n).split(":")[1] for i in range(k)]
+    return "presp c=%d s=%d d=%d:%s seed=%d mode=%s" % (k, rng.choice([200, 200, 404]), n, "/".join(digs), seed, rng.choice(["cl", "chunked"]))
+
+
 def gen_abort(rng):
     n = rng.choice([10, 1000, 5000, 40000, 100000, 300000])
     sent = rng.choice([0, 1, n // 2, n - 1])
@@ -148,7 +156,9 @@ def gen(rng, tier):
             lines = ["cfg rht=3000"]
             for _ in range(rng.randint(6, 24)):
                 r = rng.random()
-                if r < 0.6:
+                if r < 0.07:
+                    lines.append(gen_presp(rng))
+                elif r < 0.6:
                     lines.append(gen_resp(rng, tier))
                 elif r < 0.8:
                     lines.append("fail " + rng.choice(["refused", "reset-before", "close-before", "garbage", "client-cancel"]))
@@ -209,6 +219,19 @@ def monitor(ops, outs):
     for i, (l, o) in enumerate(zip(ops, outs)):
         f = l.split(" ")
         if f[0] in ("cfg",) or l.startswith("#"):
+            continue
+        if f[0] == "presp":
+            kv = dict(t.split("=", 1) for t in f[1:] if "=" in t)
+            n, digs = kv["d"].split(":")
+            want = ["%s:%s:%s" % (kv["s"], n, x) for x in digs.split("/")]
+            got = o.split(" ")
+            if got[:-1] != want:
+                for j, (a, b) in enumerate(zip(got[:-1] + ["<missing>"] * len(want), want)):
+                    if a != b:
+                        bad.append("body: line %d concurrent client %d of %s was sent %s but received %s" % (i, j, kv["c"], b, a))
+                        break
+            if got[-1] != "evc=%s/%s" % (kv["c"], kv["c"]):
+                bad.append("paired: line %d %s concurrent requests: connected/disconnected counts %s" % (i, kv["c"], got[-1]))
             continue
         if f[0] not in ("resp", "fail", "abort", "listener"):
             continue
